@@ -32,6 +32,9 @@ const MAX_RUN: Duration = Duration::from_millis(900);
 const TAG_ANCHOR: &str = "c10-anchor-unmentioned";
 /// known-finding class: `AddPre i` after a compute that published a score for i (get_trust then answers 0.9)
 const TAG_ADDPRE: &str = "c10-addpre-overwrite";
+/// known-finding class of C11: the loop ran fewer than 4 rounds and the Sybil share is below 1.05e-3
+/// (105 * n > 100000 * |S|, n = node-set size); the bound |S|/(7n) may legitimately fail there
+const TAG_EARLY_EXIT: &str = "c11-early-exit";
 /// a compute this slow returned through the 2 s timeout inside `compute_global_trust`
 const TIMEOUT_PATH: Duration = Duration::from_millis(1500);
 const WHAT_TIMEOUT: &str = "compute_global_trust returned only through its 2 s timeout (self-deadlock on last_update); the returned map is the whole cache";
@@ -331,7 +334,8 @@ fn shadow_facts(pre: &[u32], ops: &[Op], extra_final_compute: bool) -> ShadowFac
             Op::UpdStats(..) => { f.any_stats = true; sh.apply(op); }
             _ => sh.apply(op),
         }
-        if sh.has_positive_edge() { f.any_positive_edge = true; }
+        // a positive entry can only come from a `true` report
+        if !f.any_positive_edge && matches!(op, Op::UpdLocal { ok: true, .. }) && sh.has_positive_edge() { f.any_positive_edge = true; }
     }
     if extra_final_compute { at_compute(&sh, &mut f); }
     f.end = sh;
@@ -1096,6 +1100,15 @@ fn ledger_case() -> C11 {
     C11 { pre: vec![1], ops, sybils: vec![12], a: 1, h: 10, s: 1, pattern: "ledger".into(), stats_mode: "equal:[UCorrect]".into() }
 }
 
+/// The known-finding class `c11-early-exit`, always the LAST case (own shard): anchor 2, Sybil 1 rating itself,
+/// 4998 honest ids 3..5000 known only through a `false` report of the anchor (a 0.0 entry: no edge, but the id is
+/// in the node set); nobody has statistics.  The repaired loop converges after 2 rounds with mass(S) = 0.36/5000.
+fn early_exit_case() -> C11 {
+    let mut ops = vec![Op::UpdLocal { f: 1, t: 1, ok: true, via: false }];
+    for h in 3..=5000u32 { ops.push(Op::UpdLocal { f: 2, t: h, ok: false, via: h % 2 == 0 }); }
+    C11 { pre: vec![2], ops, sybils: vec![1], a: 1, h: 4998, s: 1, pattern: "early-exit".into(), stats_mode: "none".into() }
+}
+
 fn gen_c11(rng: &mut Rng, n: u32, a: u32, s: u32) -> C11 {
     let h = n - a - s;
     let anchors: Vec<u32> = (1..=a).collect();
@@ -1184,7 +1197,8 @@ fn mode_c11(args: &Args, rt: &tokio::runtime::Runtime) {
     out.sum.rule = "C11: a anchors (1-5, sometimes 50), h honest nodes (a share of them silent), s Sybils (1-30, sometimes 100-300; thorough up to 1000) \
 forming a closed set (clique/star/chain/ring/self-loops/random, optionally rating honest nodes), equal statistics (none, or one identical update \
 sequence for every id), n = a+h+s hitting 12, 99-102, 499-502 and random sizes; operations shuffled, no compute inside, ONE final compute. \
-Case 0 is the ledger scenario. Non-trivial = at least one positive edge or one statistics update and a non-empty returned map; distinct = different \
+Case 0 is the ledger scenario; the last case is the known-finding class c11-early-exit (n = 5000, one Sybil, 2 rounds); a case is tagged \
+c11-early-exit exactly when the loop ran fewer than 4 rounds and 105 n > 100000 |S|. Non-trivial = at least one positive edge or one statistics update and a non-empty returned map; distinct = different \
 (anchors, operations, S) text".into();
     // plan of (n, a, s)
     let mut plan: Vec<(u32, u32, u32)> = vec![];
@@ -1211,6 +1225,7 @@ Case 0 is the ledger scenario. Non-trivial = at least one positive edge or one s
     }
     let mut cases: Vec<C11> = vec![ledger_case()];
     for (n, a, s) in plan { let mut r2 = rng.fork(); cases.push(gen_c11(&mut r2, n, a, s)); }
+    cases.push(early_exit_case());
 
     for c in cases {
         let n = c.a + c.h + c.s;
@@ -1248,7 +1263,10 @@ Case 0 is the ledger scenario. Non-trivial = at least one positive edge or one s
         let term = format!("({}, {}, {}, 1%float, {}, {})", coq_tbl(&facts.tbl), coq_list(c.pre.iter().map(|i| i.to_string())),
             coq_list(c.ops.iter().map(coq_op)), coq_list(c.sybils.iter().map(|i| i.to_string())), coq_vec(&m));
         let rounds = facts.rounds.last().copied().unwrap_or(0);
-        let desc = json!({"kind": c.pattern, "pre": c.pre, "ops": c.ops.iter().map(json_op).collect::<Vec<_>>(), "S": c.sybils, "tags": [],
+        let early_exit = rounds < 4 && 105 * facts.n_final as u64 > 100_000 * c.sybils.len() as u64;
+        let tags: Vec<&str> = if early_exit { vec![TAG_EARLY_EXIT] } else { vec![] };
+        if early_exit { out.sum.count(&format!("tag:{}", TAG_EARLY_EXIT)); }
+        let desc = json!({"kind": c.pattern, "pre": c.pre, "ops": c.ops.iter().map(json_op).collect::<Vec<_>>(), "S": c.sybils, "tags": tags,
             "n": n, "a": c.a, "h": c.h, "s": c.s, "node_set": facts.n_final, "stats": c.stats_mode, "rounds": rounds,
             "mass_S": mass, "bound_s_over_7n": c.s as f64 / (7.0 * n as f64), "min_anchor_score": min_anchor, "total": total,
             "returned_len": m.len()});
@@ -1260,8 +1278,10 @@ Case 0 is the ledger scenario. Non-trivial = at least one positive edge or one s
         out.sum.count(&format!("stats:{}", if c.stats_mode == "none" { "none" } else { "equal-sequence" }));
         out.sum.count(&format!("rounds:{}", rounds_class(rounds)));
         out.sum.count(&format!("initial_anchors:{}", if c.pre.len() as u32 == c.a { "all" } else { "some-added-later" }));
-        let silent = (1..=c.a + c.h).filter(|i| !facts.end.local.iter().any(|((f, _), v)| f == i && *v > 0.0)).count();
-        out.sum.count(&format!("silent-good-share:{}", match silent * 4 / (c.a + c.h).max(1) as usize { 0 => "<25%", 1 => "25-50%", 2 => "50-75%", _ => ">=75%" }));
+        let speakers: BTreeSet<u32> = facts.end.local.iter().filter(|(_, v)| **v > 0.0).map(|((f, _), _)| *f).collect();
+        let good: Vec<u32> = facts.end.node_set().into_iter().filter(|i| !c.sybils.contains(i)).collect();
+        let silent = good.iter().filter(|i| !speakers.contains(i)).count();
+        out.sum.count(&format!("silent-good-share:{}", match silent * 4 / good.len().max(1) { 0 => "<25%", 1 => "25-50%", 2 => "50-75%", _ => ">=75%" }));
         if total == 0.0 { out.sum.count("all-scores-zero"); }
         out.sum.add("ops_total", c.ops.len() as u64);
         count_ops(&mut out.sum, &c.ops);
